@@ -36,6 +36,7 @@ GNU ld calibration runs with --relax only and, in position-independent outputs, 
 twelve absolute symbols (thorough: everything wild links, minus APX and REX.B encodings).
 C14_SYMS=a,b restricts the symbols (debugging aid; never set by ./check)."""
 import hashlib
+import itertools
 import json
 import os
 import struct
@@ -1040,10 +1041,19 @@ def plan(thorough):
                 continue
             for relax in (True, False):
                 jobs.append(dict(linker='wild', sym=symname, out=out, relax=relax))
+                if SYMS[symname]['cls'] == 'tls':
+                    # Which GOT slots a TLS symbol owns depends on which access models the link
+                    # uses for it (initial-exec offset, general-dynamic pair, descriptor pair):
+                    # every proper non-empty subset of the three models gets a link of its own.
+                    for r in (1, 2):
+                        for fams in itertools.combinations(TLS_MODEL_FAMS, r):
+                            jobs.append(dict(linker='wild', sym=symname, out=out, relax=relax,
+                                             fams=fams))
     return jobs, outs
 
 
 LD_QUICK_ABS_PIC = ('absh_2', 'absd_2')
+TLS_MODEL_FAMS = ('GOTTPOFF', 'TLSGD', 'GOTPC32_TLSDESC')
 
 
 def ld_plan(thorough, outs):
@@ -1126,6 +1136,9 @@ def main():
 
         wjobs, outs = plan(thorough)
         wjobs = [dict(j, **common) for j in wjobs]
+        for j in wjobs:
+            if j.get('fams'):
+                j['select'] = [x.sid for x in sites_for(j['sym'], thorough) if x.fam in j['fams']]
         if chk.seed:
             import random
             random.Random(chk.seed).shuffle(wjobs)
